@@ -319,7 +319,7 @@ def write_evidence(prop, tier, seed, coverage, assumptions, wall, violations, le
     return ev
 
 
-EXTRA_PARTS = {"C12": [("clirun", "c12_part")], "C18": [("crosspart", "c18_from_c20")], "C09": [("crosspart", "c09_loader")]}
+EXTRA_PARTS = {"C12": [("clirun", "c12_part")], "C18": [("crosspart", "c18_from_c20")], "C09": [("crosspart", "c09_loader")], "C16": [("clirun", "c16_part")]}
 PLANNER_DEP_PROPS = {"C02", "C03", "C04", "C05", "C09", "C12", "C13"}
 
 
